@@ -16,6 +16,10 @@ CHECKS = {
    technique="property-based testing (rapid) with an independent strict MessagePack decoder and a reference inline/unescape implementation; exhaustive value lengths across every length-class boundary",
    text="Generated schemas (1-24 fields, reserved slots), environment/hidden sets and rewrite chains are loaded through the real YAML config path; records with values at and around 15/16, 31/32, 255/256, 65535/65536 bytes (and up to 70000) of ASCII, arbitrary bytes and all escape forms are serialized by 1-3 serializers in sequence; each output must decode (own strict decoder, no trailing bytes) to the timestamp, exactly the non-empty non-masked fields, the complete environment map, and the reference rewrite results; the record itself must stay unchanged.",
    note="Record size is kept below the serializer's documented buffer (2x InputLogMaxRecordBytes, scaled to 400 KB); over-size records belong to C07. Timestamps are limited to the EventTime range (uint32 seconds)."),
+ "C11": dict(engine="c11chunk", category="exploration", design="§3 C11",
+   technique="property-based testing (rapid) of write/flush histories with independent Forward (own MessagePack decoder) and gzip+JSON decoders; boundary enumeration around byte and record limits",
+   text="Generated sequences of WriteStream/FlushBuffer calls (caller buffer reused and overwritten like the serializer's) through Config.NewChunkMaker of the Forward, PackedForward, CompressedPackedForward and Datadog outputs; every chunk must decode, carry the tag, option.chunk == LogChunk.ID (accepted by MatchChunkID, unique, increasing), option.size == number of entries; the concatenation of all chunks equals the written sequence byte for byte; no chunk exceeds the byte/record limit unless it holds one record; flushing nothing yields nothing.",
+   note="Forward limits are set small through hook H3 (SetChunkLimitsForVerif); production 7 MiB limits are exercised in the thorough tier; Datadog limits are production constants. The same-nanosecond branch of the chunk ID generator cannot be reached without a clock hook (not claimed)."),
 }
 
 NOT_YET = {}
